@@ -274,6 +274,20 @@ Literal(t) ==
     [] t[1] = "m" -> <<"m", Literal(t[2]), t[3]>>
     [] OTHER -> t
 
+\* What a compiler rejects when it reads the template (nothing there depends on a parameter): a pointer to a
+\* reference, an array of references or functions, a function returning an array or a function - also through an own
+\* member typedef (typedef char (&m1)[N]; typedef m1 *m2;).  Shape = outermost constructor, own members looked through.
+Shape(t, T) == IF t[1] = "own" THEN defs[T][t[2]][1] ELSE t[1]
+RECURSIVE ShapesOK(_, _)
+ShapesOK(t, T) ==
+  CASE t[1] = "ptr" -> Shape(t[2], T) # "ref" /\ ShapesOK(t[2], T)
+    [] t[1] \in {"ref", "m"} -> ShapesOK(t[2], T)
+    [] t[1] = "arr" -> Shape(t[2], T) \notin {"ref", "fn"} /\ ShapesOK(t[2], T)
+    [] t[1] = "fn" -> Shape(t[2], T) \notin {"arr", "fn"} /\ Shape(t[3], T) \notin {"arr", "fn"}
+                      /\ ShapesOK(t[2], T) /\ ShapesOK(t[3], T)
+    [] t[1] = "t" -> \A i \in 1..Len(t[3]) : Kinds[t[2]][i] = "c" => ShapesOK(t[3][i], T)
+    [] OTHER -> TRUE
+
 \* number of arguments a template-id of T must write at least
 MinArgs(T) == Cardinality({i \in 1..Arity[T] : dflt[T][i] = NONE})
 
@@ -295,7 +309,7 @@ BodyOK(T, s, b) ==
   /\ KindOK(b, "c", Kinds[T])
   /\ \A V \in Projects(b) : Level[V] < Level[T]           \* stratification: instantiation terminates
   /\ UsesOwn(b) \subseteq (IF s = "m2" /\ defs[T]["m1"] # NONE THEN {"m1"} ELSE {})
-  /\ ProjDependent(b)
+  /\ ProjDependent(b) /\ ShapesOK(b, T)
   /\ \A nm \in Names(b) : nm[2] >= MinArgs(nm[1])         \* the compiler checks the arity at definition time
 
 ---------------------------------------------------------------------------
@@ -379,5 +393,5 @@ ArgsFirst(t) ==
     [] OTHER -> t
 SubstLemma == query # NONE => Norm(ArgsFirst(query)) = Result
 \* every value stays small (TLC integers are 32 bits; the C++ side computes in int)
-Small == query # NONE => \A v \in Lits(Result) : v \in -1000..1000
+Small == query # NONE => \A v \in Lits(Result) : v \in -100000..100000
 =============================================================================
